@@ -1597,7 +1597,10 @@ request_parse(u8 *packet, int length, struct evdns_server_port *port,
 
 	/* Only standard queries are supported. */
 	if (flags & _OP_MASK) {
-		evdns_server_request_respond(&(server_req->base), DNS_ERR_NOTIMPL);
+		/* If the response cannot be built (e.g. a question name that
+		 * cannot be encoded), nobody else will release the request. */
+		if (evdns_server_request_respond(&(server_req->base), DNS_ERR_NOTIMPL) < 0)
+			evdns_server_request_drop(&(server_req->base));
 		return -1;
 	}
 
